@@ -968,7 +968,14 @@ def run(ck):
                 if a.get('k') == 'If' and any(x is c for x in walk(a['then'])):
                     conds.append(a['c'])
                 for cd in conds:
+                    # a test bound to a local first (`let is_object = cls.is_derived_from(..); if is_object {..}`) is read through the let
+                    srcs = [cd]
                     for x in walk(cd):
+                        if x.get('k') == 'Path' and x.get('res') == 'local':
+                            b_ = H.binding_sites(fn).get(x.get('hid')) or {}
+                            if b_.get('kind') == 'let' and b_['node'].get('init') is not None and 'bool' == (L.ty(x) or ''):
+                                srcs.append(b_['node']['init'])
+                    for x in (y for s_ in srcs for y in walk(s_)):
                         if x.get('k') == 'MCall' and x.get('m') == 'is_derived_from' and x['args']:
                             f_ = H.strip_refs(x['args'][0])
                             tests.append(f_.get('f') if f_.get('k') == 'Field' and 'KnownClasses' in (f_.get('adt') or '') else pp(f_, maxlen=30))
